@@ -17,8 +17,6 @@ def known_class(j, cat, text):
         return "KF-VOX-ODD"
     if f.major == 0x04 and f.codec in (0x40, 0x41, 0x42):
         return "KF-RAW-DWVW-FRAMES"
-    if f.codec in (0x71, 0x72, 0x73) and cat in ("roundtrip", "close", "crash", "reopen", "eof", "frames"):
-        return "KF-ALAC-ROUNDTRIP"
     if f.major in (0x01, 0x13) and f.codec == 0x20 and cat in ("frames", "eof", "snapshot"):
         return "KF-WAV-GSM-PAD"
     if f.major == 0x0F and cat in ("partition", "frames", "eof", "stale"):
